@@ -142,8 +142,18 @@ def Action.isDrop : Action → Bool
   | .drop _ => true
   | _ => false
 
-/-- `outgoing_crypto`; `none` = the KeyError of `self.relays[relay.circuit_id]` (nothing is sent) -/
+/-- the guard at the top of `outgoing_crypto` (fix 6f09f78): a cell that is not flagged plaintext is only sent when some
+    key will be applied — own circuit with at least one hop, or an exit socket / relay entry for the circuit id -/
+def noKeyToSend (nd : Node A) (c : Cell) : Bool :=
+  !c.plaintext &&
+    (match List.lookup c.cid nd.circuits with
+     | some ce => ce.hops.isEmpty
+     | none => (List.lookup c.cid nd.exits).isNone && (List.lookup c.cid nd.relays).isNone)
+
+/-- `outgoing_crypto`; `none` = nothing is sent (the CryptoException of the guard above, caught inside; or the KeyError of
+    `self.relays[relay.circuit_id]`, which in the code escapes to the caller of `send_cell`) -/
 def outgoingCrypto (nd : Node A) (c : Cell) : Option Cell :=
+  if noKeyToSend nd c then none else
   match List.lookup c.cid nd.circuits with
   | some ce =>
     let c1 := match ce.hs with
@@ -162,18 +172,20 @@ def outgoingCrypto (nd : Node A) (c : Cell) : Option Cell :=
           | none => none
       | none => some c
 
+/-- the relay_early bookkeeping at the top of `send_cell` (own circuits only) -/
+def earlyStep (nd : Node A) (c : Cell) : Node A × Cell :=
+  match List.lookup c.cid nd.circuits with
+  | some ce =>
+    let early := (c.msg.head? == some 4) || decide (ce.early < nd.maxEarly)
+    let ce' := if early then { ce with early := ce.early + 1 } else ce
+    ({ nd with circuits := setEntry c.cid ce' nd.circuits }, { c with relayEarly := early })
+  | none => (nd, c)
+
 /-- `send_cell`: relay_early bookkeeping for own circuits, then `outgoing_crypto`, then the datagram -/
 def sendCell (nd : Node A) (target : Nat) (c : Cell) : Node A × Option (Nat × Cell) :=
-  let (nd1, c1) : Node A × Cell :=
-    match List.lookup c.cid nd.circuits with
-    | some ce =>
-      let early := (c.msg.head? == some 4) || decide (ce.early < nd.maxEarly)
-      let ce' := if early then { ce with early := ce.early + 1 } else ce
-      ({ nd with circuits := setEntry c.cid ce' nd.circuits }, { c with relayEarly := early })
-    | none => (nd, c)
-  match outgoingCrypto nd1 c1 with
-  | none => (nd1, none)
-  | some c2 => ({ nd1 with ctr := nd1.ctr + 8 }, some (target, c2))
+  match outgoingCrypto (earlyStep nd c).1 (earlyStep nd c).2 with
+  | none => ((earlyStep nd c).1, none)
+  | some c2 => ({ (earlyStep nd c).1 with ctr := (earlyStep nd c).1.ctr + 8 }, some (target, c2))
 
 /-- own circuit that has no hop (hence no key) yet: still waiting for the created message -/
 def noKeysYet (ci : Option (CircuitE A)) (xe : Option (ExitE A)) : Bool :=
@@ -417,26 +429,6 @@ def XSock.held (s : XSock) : List Nat := (s.out ++ s.queue ++ s.pending).map Pro
 def XEv.sentId : XEv → List Nat
   | .send i _ => [i]
   | _ => []
-
-/-! ### retiring an exit socket (community.py `remove_exit_socket`): the table entry stays while the socket is still
-    open (during `remove_tunnel_delay`), and both go away together -/
-
-structure ExitNode (A : Aead) where
-  nd : Node A
-  openSocks : List Nat        -- circuit ids of exit sockets whose outside transport is open
-
-def ExitNode.removeStart {A : Aead} (x : ExitNode A) (_cid : Nat) : ExitNode A := x      -- nothing changes yet
-
-def ExitNode.removeFinish {A : Aead} (x : ExitNode A) (cid : Nat) : ExitNode A :=
-  { nd := { x.nd with exits := x.nd.exits.filter (fun p => p.1 != cid) },
-    openSocks := x.openSocks.filter (fun c => c != cid) }
-
-def ExitNode.openSocket {A : Aead} (x : ExitNode A) (cid : Nat) : ExitNode A :=
-  if (List.lookup cid x.nd.exits).isSome then { x with openSocks := cid :: x.openSocks } else x
-
-/-- every open socket is still listed in the routing table (so its return traffic gets encrypted) -/
-def ExitNode.covered {A : Aead} (x : ExitNode A) : Bool :=
-  x.openSocks.all (fun cid => (List.lookup cid x.nd.exits).isSome)
 
 end
 
